@@ -43,6 +43,7 @@ type PropConfig struct {
 	ReplayCases map[string]string `json:"replay_cases"` // func key -> comma separated replay case names
 	Explanation string   `json:"explanation"`
 	Extra    []string    `json:"extra_cmds"` // additional deciding commands (e.g. asmvc), run from /verif
+	SpecLemmas []string  `json:"spec_lemmas"` // stand-alone SMT-LIB lemma files (must be unsat), relative to /verif
 }
 
 type Finding struct {
@@ -258,7 +259,9 @@ func cmdCheck(args []string) {
 				p := writeReplay(rec)
 				lines = append(lines, fmt.Sprintf("VIOLATION property=%s replay=%s obligation=%s input: %s", id, p, o.Name, truncate(fails[0], 300)))
 				violations++
-			} else if wasProved || o.Res.Verdict == Refuted && len(baseline) == 0 {
+			} else if wasProved || o.Res.Verdict == Refuted && (len(baseline) == 0 || o.Kind == "frame") {
+				// (a frame obligation exists only when the code writes memory it did not write on the
+				// unchanged tree; a solver countermodel for it is a violation of the assigns clause)
 				p := writeReplay(rec)
 				lines = append(lines, fmt.Sprintf("VIOLATION property=%s replay=%s obligation=%s (%s) no-failing-input-found", id, p, o.Name, o.Res.Verdict))
 				violations++
@@ -298,6 +301,31 @@ func cmdCheck(args []string) {
 			}
 			p := writeReplay(map[string]interface{}{"property": id, "standin": s.Name, "failure": f})
 			lines = append(lines, fmt.Sprintf("VIOLATION property=%s replay=%s standin=%s input: %s", id, p, s.Name, truncate(f, 300)))
+			violations++
+		}
+	}
+	// stand-alone lemmas of the specification library (pure mathematics over the spec functions)
+	for _, lf := range pc.SpecLemmas {
+		data, err := os.ReadFile(filepath.Join(*vdir, lf))
+		total++
+		if err != nil {
+			lines = append(lines, fmt.Sprintf("ERROR: spec lemma %s: %v", lf, err))
+			violations++
+			continue
+		}
+		txt := string(data)
+		if !strings.Contains(txt, "(check-sat)") {
+			txt += "\n(check-sat)\n"
+		}
+		r := Solve(&Query{Text: txt}, timeout, false)
+		if r.Verdict == Proved {
+			discharged++
+			solverCount[r.Solver]++
+			solverTime[r.Solver] += r.Seconds
+			samples = append(samples, map[string]string{"obligation": "spec-lemma:" + lf, "solver": r.Solver})
+		} else {
+			p := writeReplay(map[string]interface{}{"property": id, "spec_lemma": lf, "verdict": r.Verdict.String(), "detail": r.Detail})
+			lines = append(lines, fmt.Sprintf("VIOLATION property=%s replay=%s spec-lemma=%s (%s) no-failing-input-found", id, p, lf, r.Verdict))
 			violations++
 		}
 	}
